@@ -562,6 +562,9 @@ def rule_j(ctx: Ctx):
     for n in ast.walk(fi.node):
         if isinstance(n, ast.Subscript) and isinstance(n.value, ast.Subscript) and isinstance(n.value.slice, ast.Constant) and n.value.slice.value == "proc_times":
             n_reads += 1
+        if isinstance(n, ast.Subscript) and isinstance(n.value, ast.Call) and isinstance(n.value.func, ast.Attribute) and n.value.func.attr == "get" and n.value.args \
+                and isinstance(n.value.args[0], ast.Constant) and n.value.args[0].value == "proc_times":
+            n_reads += 1
     for n in ast.walk(fi.node):
         if isinstance(n, ast.Call) and isinstance(n.func, ast.Attribute) and "proc_times" in ast.unparse(n.func.value):
             if n.func.attr in TRUNC_METHS or (n.func.attr in ("to", "type") and any(("int" in ast.unparse(a) or "long" in ast.unparse(a)) for a in list(n.args) + [k.value for k in n.keywords])):
